@@ -103,6 +103,27 @@ pub fn matrix_f64(rng: &mut Rng, n: usize, fam: &str, wide: bool) -> Vec<f64> {
             // all points and every link is chosen among exact ties
             for (i, _j) in pairs(n) { v.push((n - i) as f64); }
         }
+        "maxmag" => {
+            // finite values next to the largest finite one (their sum overflows; single / complete
+            // linkage never add, so this is valid input for them)
+            let (lo, hi) = if wide { (1e307, 1.7e308) } else { (1e37, 3.3e38) };
+            // ... and entries exactly equal to the largest finite value (finite input: the
+            // sentinel of the generic algorithm's queue must not collide with it)
+            let mx = if wide { f64::MAX } else { f32::MAX as f64 };
+            let pmax = [0u64, 2, 3, 1][rng.below(4) as usize];
+            for _ in 0..len {
+                if pmax > 0 && rng.below(pmax) == 0 { v.push(mx); } else { v.push(lo + rng.unit() * (hi - lo)); }
+            }
+        }
+        "rampdips" => {
+            // points on a line with growing gaps, except a close pair every k-th point: the raw
+            // merge order of Prim / the NN-chain is then almost, but not entirely, sorted
+            // (adaptive "nearly sorted" paths in the step ordering)
+            let k = [7usize, 20, 50, 100][rng.below(4) as usize];
+            let mut x = vec![0.0f64; n];
+            for i in 1..n { x[i] = x[i - 1] + if (i - 1) % k == k - 1 { 0.25 } else { i as f64 }; }
+            for (i, j) in pairs(n) { v.push((x[j] - x[i]).abs()); }
+        }
         "neartie" => {
             let base = [1.0, 0.7, 1.7, 2.1, 0.9, 3.3][rng.below(6) as usize];
             for _ in 0..len {
@@ -172,10 +193,11 @@ impl AlgoCase {
 
 fn pick_family(rng: &mut Rng) -> &'static str {
     // tie-heavy families weighted up
-    const W: [(&str, u64); 16] = [
+    const W: [(&str, u64); 20] = [
         ("uniform", 4), ("lattice", 5), ("allequal", 2), ("allzero", 1), ("duppoints", 3),
         ("negative", 1), ("sorted", 1), ("revsorted", 1), ("collinear", 2), ("pow2", 1),
         ("huge", 1), ("tiny", 1), ("neartie", 3), ("euclid", 3), ("signed", 3), ("staircase", 1),
+        ("negzero", 2), ("tiechain", 1), ("rowconst", 1), ("rampdips", 1),
     ];
     let total: u64 = W.iter().map(|w| w.1).sum();
     let mut r = rng.below(total);
@@ -218,8 +240,25 @@ pub fn algo_cases(rng: &mut Rng, count: usize, thorough: bool) -> Vec<AlgoCase> 
         let wide = rng.below(4) != 0;
         let n = pick_n(rng, algo, wide, thorough);
         let fam = pick_family(rng);
+        // single / complete: also values next to the largest finite one
+        let fam = if method <= 1 && rng.below(20) == 0 { "maxmag" } else { fam };
         let v = matrix_f64(rng, n as usize, fam, wide);
         out.push(AlgoCase { algo, method, wide, n, bits: to_bits(&v, wide), family: fam });
+    }
+    // finite input with entries equal to the largest finite value, every entry point, single /
+    // complete (which never add): [1, MAX, MAX] made the generic algorithm spin before 26f6ac5
+    for algo in 0u8..5 {
+        for method in 0u8..2 {
+            if !accepts(algo, method) { continue; }
+            for &wide in &[true, false] {
+                let mx = if wide { f64::MAX } else { f32::MAX as f64 };
+                let v = vec![1.0, mx, mx];
+                out.push(AlgoCase { algo, method, wide, n: 3, bits: to_bits(&v, wide), family: "maxmag" });
+                let n = rng.range(4, 9);
+                let v = matrix_f64(rng, n as usize, "maxmag", wide);
+                out.push(AlgoCase { algo, method, wide, n, bits: to_bits(&v, wide), family: "maxmag" });
+            }
+        }
     }
     // tie-saturated mid-size cases for the sort path (slices above the
     // insertion-sort threshold of the stable sort)
